@@ -195,6 +195,13 @@ theorem prune_never_matching_identity (p : Profile) : pruneWith p (fun _ => fals
   unfold lineMatches
   split <;> simp
 
+/-- FRAME LEVEL, UNCONDITIONAL (all profiles, valid or not, all predicates; also in families A and
+B): the frames of every sample after drop/keep are, in order, a sublist of its frames before — the
+rules only ever remove frames, they never add, duplicate, rename or reorder one. -/
+theorem prune_frames_only_removed (p : Profile) (q : Str → Bool) (s : Sample) :
+    List.Sublist (frames (pruneWith p q) (pruneSample p q s)) (frames p s) :=
+  prune_frames_sublist p q s
+
 /-- The same for prune_from, UNCONDITIONAL (also inside the known-finding family
 `inlined-location-above-lowest-match`): location lists and line lists only lose leaf-side elements. -/
 theorem pruneFrom_removes_only_leaf_side (p : Profile) (q : Str → Bool) :
